@@ -257,12 +257,14 @@ C11_ReadIndexFresh ==
       /\ rs.index >= hist.reads[rs.rid].maxc
 \* a response is produced only by a leader that committed in its own term
 NewReadStates == IF ~BothUp \/ A.name = "Ready" THEN <<>> ELSE NewSeq(Pre.readStates, Post.readStates)
+OwnTermCommitted(n, d) == n.role = "L" /\ ZeroTerm(LogTerm(n, d, n.commit)) = n.term
+\* the commit index may advance in the very step that then releases postponed reads, so the
+\* condition must hold before or after the step
+ServedOK == OwnTermCommitted(Pre, PostD) \/ OwnTermCommitted(Post, PostD)
 C11_ServedByRealLeader ==
   BothUp =>
-    /\ \A k \in DOMAIN NewMsgs : NewMsgs[k].type = "ReadIndexResp" =>
-         (Pre.role = "L" /\ ZeroTerm(LogTerm(Pre, PostD, Pre.commit)) = Pre.term)
-    /\ (Len(NewReadStates) > 0 /\ ~(A.name = "Deliver" /\ A.msg.type = "ReadIndexResp")) =>
-         (Pre.role = "L" /\ ZeroTerm(LogTerm(Pre, PostD, Pre.commit)) = Pre.term)
+    /\ \A k \in DOMAIN NewMsgs : NewMsgs[k].type = "ReadIndexResp" => ServedOK
+    /\ (Len(NewReadStates) > 0 /\ ~(A.name = "Deliver" /\ A.msg.type = "ReadIndexResp")) => ServedOK
     \* unless sole voter: confirmed only after a quorum acknowledged a heartbeat sent after the request
     /\ (A.name = "Deliver" /\ A.msg.type = "HeartbeatResp" /\ Pre.role = "L" /\ Post.roConf > Pre.roConf) =>
          LET acked == {v \in Node : \E q \in DOMAIN Post.roAcks : Post.roAcks[q].id = v /\ Post.roAcks[q].pos >= Post.roConf}
